@@ -213,20 +213,20 @@ def run(model, rep, tier):
     # ---------------------------------------------------------------- R-06.4
     rl = model.func("dns.name.Name.relativize")
     t = " ".join(src(rl.node).split())
-    rep.check("if self.is_subdomain(origin): return Name(self[:-len(origin)]) else: return self" in t, "R-06.4", rl.qualname, where(rl, rl.node),
+    rep.check(pat.has(rl.node, "if self.is_subdomain(origin):\n    return Name(self[:-len(origin)])\nelse:\n    return self"), "R-06.4", rl.qualname, where(rl, rl.node),
               "strips exactly len(origin) labels, only when self is a subdomain of origin", "relativize no longer strips exactly len(origin) labels under is_subdomain(origin)", stmt="relativize")
     dr = model.func("dns.name.Name.derelativize")
     t = " ".join(src(dr.node).split())
-    rep.check("if not self.is_absolute(): return self.concatenate(origin) else: return self" in t, "R-06.4", dr.qualname, where(dr, dr.node),
+    rep.check(pat.ends_with(dr.node, "if not self.is_absolute():\n    return self.concatenate(origin)\nelse:\n    return self"), "R-06.4", dr.qualname, where(dr, dr.node),
               "appends the origin only to relative names", "derelativize no longer appends only to relative names", stmt="derelativize")
     cr = model.func("dns.name.Name.choose_relativity")
     t = " ".join(src(cr.node).split())
-    rep.check("if origin: if relativize: return self.relativize(origin) else: return self.derelativize(origin) else: return self" in t, "R-06.4", cr.qualname, where(cr, cr.node),
+    rep.check(pat.ends_with(cr.node, "if origin:\n    if relativize:\n        return self.relativize(origin)\n    else:\n        return self.derelativize(origin)\nelse:\n    return self"), "R-06.4", cr.qualname, where(cr, cr.node),
               "choose_relativity dispatches on origin, then relativize", "choose_relativity dispatch changed", stmt="choose")
     cc = model.func("dns.name.Name.concatenate")
     t = " ".join(src(cc.node).split())
     ecc = pat.Env()
-    rep.check("if self.is_absolute() and len(other) > 0: raise AbsoluteConcatenation" in t and pat.has(cc.node, "__labels = list(self.labels)\n__labels.extend(list(other.labels))\nreturn Name(__labels)", ecc), "R-06.4", cc.qualname, where(cc, cc.node),
+    rep.check(pat.has(cc.node, "if self.is_absolute() and len(other) > 0:\n    raise AbsoluteConcatenation") and pat.has(cc.node, "__labels = list(self.labels)\n__labels.extend(list(other.labels))\nreturn Name(__labels)", ecc), "R-06.4", cc.qualname, where(cc, cc.node),
               "concatenate refuses to extend an absolute name and appends other's labels", "concatenate guard/append changed", stmt="concatenate")
     pa = model.func("dns.name.Name.parent")
     rep.check("return Name(self.labels[1:])" in src(pa.node) and "raise NoParent" in src(pa.node), "R-06.4", pa.qualname, where(pa, pa.node), "parent drops the leftmost label; root/empty have none",
